@@ -94,21 +94,11 @@ def discharge(obl, timeout_ms=10000, axioms=(), want_model=True, try_cvc5=True):
         tmo = timeout_ms if first else max(timeout_ms, 2000)
         first = False
         if backend == 'z3':
-            s.set('timeout', tmo)
-            r = s.check()
-            if r == z3.unsat:
-                return Result(obl.name, obl.kind, 'unsat', 'z3', time.time() - t0, line=obl.line,
-                              fn=obl.fn, case=obl.case, size=size, detail=detail)
-            if r == z3.sat:
-                model = None
-                if want_model:
-                    try:
-                        model = model_to_dict(s.model())
-                    except Exception:
-                        model = None
-                return Result(obl.name, obl.kind, 'sat', 'z3', time.time() - t0, model=model,
+            st, d2, model = run_z3_text(txt, tmo, want_model)
+            if st in ('unsat', 'sat'):
+                return Result(obl.name, obl.kind, st, 'z3', time.time() - t0, model=model,
                               line=obl.line, fn=obl.fn, case=obl.case, size=size, detail=detail)
-            detail += ' z3: ' + s.reason_unknown()
+            detail += ' z3: ' + d2
         else:
             st, d2, model = run_cvc5_text(txt, tmo, want_model)
             if st in ('unsat', 'sat'):
@@ -117,6 +107,34 @@ def discharge(obl, timeout_ms=10000, axioms=(), want_model=True, try_cvc5=True):
             detail += ' cvc5: ' + d2
     return Result(obl.name, obl.kind, 'unknown', '+'.join(order), time.time() - t0, line=obl.line,
                   fn=obl.fn, case=obl.case, size=size, detail=detail.strip())
+
+
+def run_z3_text(txt, timeout_ms, want_model=False):
+    """z3 as a subprocess (z3-new 5.1): a hard wall-clock limit, unlike the in-process timeout"""
+    if want_model:
+        txt = txt + '\n(get-model)\n'
+    fd, path = tempfile.mkstemp(suffix='.smt2', prefix='pyvcz')
+    try:
+        with os.fdopen(fd, 'w') as f:
+            f.write(txt)
+        secs = max(1, int(round(timeout_ms / 1000.0)))
+        try:
+            p = subprocess.run(['z3-new', '-T:%d' % secs, path], capture_output=True, text=True,
+                               timeout=secs + 5)
+        except subprocess.TimeoutExpired:
+            return 'unknown', 'timeout', None
+        out = p.stdout.strip().splitlines()
+        if out and out[0] in ('unsat', 'sat', 'unknown'):
+            model = None
+            if out[0] == 'sat' and want_model:
+                model = parse_cvc5_model('\n'.join(out[1:]))
+            return out[0], '', model
+        return 'unknown', (p.stdout + p.stderr)[:200].replace('\n', ' '), None
+    finally:
+        try:
+            os.unlink(path)
+        except OSError:
+            pass
 
 
 def run_cvc5_text(txt, timeout_ms, want_model=False):
